@@ -331,13 +331,16 @@ func GenContent(t *sim.Tape) (data []byte, marks []int, class string) {
 	return b, marks, fmt.Sprintf("%s/%d", class, len(b))
 }
 
-// isWholePointer asks the decoder whether the entire input is a pointer.
+// isWholePointer: is the entire input a well-formed pointer, by the harness's
+// own reading of the format (sim.RefPointer), not by git-lfs's decoder.
 func isWholePointer(data []byte) bool {
-	if len(data) >= 1024 || len(data) == 0 {
-		return false
-	}
-	_, err := lfs.DecodePointer(bytes.NewReader(data))
-	return err == nil
+	return sim.RefPointer(data) == sim.PtrYes
+}
+
+// pointerUnspecified: the format documents do not say whether this input is a
+// pointer (upper-case hex and the like); nothing is demanded either way.
+func pointerUnspecified(data []byte) bool {
+	return sim.RefPointer(data) == sim.PtrUnspec
 }
 
 // ---- the clean/smudge oracle -------------------------------------------------
@@ -404,6 +407,11 @@ func runStream(rc *RunCtx, gen func(*sim.Tape) ([]byte, []int, string), prop str
 		return
 	}
 	store := fx.storeContents()
+	if pointerUnspecified(data) {
+		// either reading is fine, but it must be one of the two
+		rc.Probe("pointer-unspecified-input")
+		isPtr = bytes.Equal(out.Bytes(), data)
+	}
 	if isPtr || len(data) == 0 {
 		rc.Probe("pointer-or-empty-input")
 		if !bytes.Equal(out.Bytes(), data) {
@@ -486,12 +494,14 @@ func init() {
 			// make it a non-pointer
 			data = append([]byte("not a pointer: "), data...)
 		}
-		// "does not parse as a pointer" is judged by the decoder itself on
-		// the whole input (an input of 1024 bytes or more whose first
+		// "does not parse as a pointer" is judged by the harness's own
+		// reading of the format (an input of 1024 bytes or more whose first
 		// 1024 bytes trim to a pointer is ambiguous and not demanded).
-		if _, derr := lfs.DecodePointer(bytes.NewReader(data)); derr == nil {
+		if pointerUnspecified(data) || (len(data) >= 1024 && sim.RefPointer(bytes.TrimSpace(data[:1024])) != sim.PtrNo) {
+			rc.Probe("smudge-input-ambiguous")
 			return
 		}
+		rc.Probe("smudge-non-pointer")
 		sizes, eofWD := GenChunks(t, len(data), marks)
 		var back bytes.Buffer
 		rd := &ChunkReader{Data: data, Sizes: sizes, EOFWithData: eofWD}
